@@ -79,6 +79,14 @@ async def realise(ctx, sq, sq_auth, n, scen, rnd, refused_port):
         url_scheme = 'gopher' if rnd.random() < 0.5 else 'wais'
     elif e == 'auth_required':
         port = sq_auth.port
+    elif e == 'expect_417':
+        hdrs.append(('Expect', '200-ok'))
+    elif e == 'te_501':
+        method = 'POST' if w != 'method' else method
+        hdrs.append(('Transfer-Encoding', 'gzip'))
+    elif e == 'internal_unknown':
+        target_host = 'verif.squid:%d' % sq.port
+        path = '/squid-internal-nosuch/thing' + (path if w in ('path', 'fragmentless') else '')
     elif e == 'mgr_denied':
         target_host = 'verif.squid:%d' % sq.port
         path = '/squid-internal-mgr/config' + (path if w in ('path', 'fragmentless') else '')
